@@ -102,24 +102,42 @@ def session(kind, rng, length, ops_filter=None):
                 ev.append({"op": m, "after": after()})
             elif m == "remove_poly":
                 d = int(rng.integers(0, 4))
+                cold = cls(np.array(o.values), dt)
+                cold.remove_poly(d)
                 o.remove_poly(d)
-                ev.append({"op": "havoc", "name": "remove_poly", "deg": d, "after": after()})
+                ev.append({"op": "havoc", "name": "remove_poly", "deg": d, "after": after(), "cold": enc_seq(np.asarray(cold.values, dtype=float))})
             elif m == "butter_pass":
                 if npts < 40:
                     continue
+                cold = cls(np.array(o.values), dt)
+                cold.butter_pass((0.02 / dt, 0.3 / dt), filter_order=2)
                 o.butter_pass((0.02 / dt, 0.3 / dt), filter_order=2)
-                ev.append({"op": "havoc", "name": "butter_pass", "deg": -1, "after": after()})
+                ev.append({"op": "havoc", "name": "butter_pass", "deg": -1, "after": after(), "cold": enc_seq(np.asarray(cold.values, dtype=float))})
             elif m == "rebase_displacement":
                 o.rebase_displacement()
                 ev.append({"op": m, "after": after()})
             else:
+                # the same operation on a freshly constructed object holding the same record (nothing read, nothing cached): what
+                # an operation does may not depend on which derived quantities were read before it
+                cold = cls(np.array(o.values), dt)
                 if m == "remove_rolling_average":
                     if int(1. / (12 * dt)) < 1:
                         continue
-                    o.remove_rolling_average(mtype=["velocity", "acc"][rng.integers(2)], freq_window=12)
+                    mt = ["velocity", "acc"][rng.integers(2)]
+                    cold.remove_rolling_average(mtype=mt, freq_window=12)
+                    o.remove_rolling_average(mtype=mt, freq_window=12)
                 else:
                     if not (float(np.max(np.abs(np.asarray(o.values, dtype=float)))) > 0.0):
                         continue       # the residual corrections scale their steps by the peak: an identically zero record has nothing to correct
-                    getattr(o, m)()
-                ev.append({"op": "havoc", "name": m, "deg": -1, "after": after()})
+                    tz = None
+                    if m in ("set_zero_residual_velocity", "set_zero_residual_displacement_and_velocity") and npts >= 20 and rng.integers(2):
+                        t_end = (npts - 1) * dt
+                        tz = (float(rng.uniform(0.1, 0.4)) * t_end, float(rng.uniform(0.6, 0.95)) * t_end)
+                    if tz is None:
+                        getattr(cold, m)()
+                        getattr(o, m)()
+                    else:
+                        getattr(cold, m)(timezone=tz)
+                        getattr(o, m)(timezone=tz)
+                ev.append({"op": "havoc", "name": m, "deg": -1, "after": after(), "cold": enc_seq(np.asarray(cold.values, dtype=float))})
     return ev
